@@ -156,6 +156,16 @@ def run(chk, tier, jobs, deadline):
                 continue
             if not sig.startswith("C08/"):
                 continue
+            if "SIGALRM" in sig:
+                # the explorer's 60 s real-time watchdog: either the machine is overloaded (does not reproduce) or the
+                # single-threaded driver is stuck in a blocking call (harness limitation, not a C08 clause)
+                if v.get("reproduced"):
+                    chk.broke("%s: execution hangs (%s): %s" % (p, sig, v["text"]))
+                else:
+                    chk.info("C08/watchdog-not-reproduced", "an execution exceeded the 60 s real-time watchdog once and "
+                             "ran normally when replayed (overloaded machine); its subtree may be incomplete (%s)" % p)
+                    completed_all = False
+                continue
             if not v.get("reproduced"):
                 chk.broke("%s: violation %s did not reproduce deterministically on replay" % (p, sig))
                 continue
